@@ -288,6 +288,61 @@ def seq_len(tier):
     return 7 if tier == 'quick' else 9
 
 
+HANDOVER_CALLS = [['preamble', 'p\n', None, 4, None, None],
+                  ['meta', {'k': 'v'}, None], ['change', None],
+                  ['preamble', 'c\n', 'latin-1', 2, None, None],
+                  ['file', None], ['meta', {'path': 'f'}, None],
+                  ['diff', b'-a\n+b\n', None, None, None], ['file', 'utf-16'],
+                  ['meta', {'path': 'g'}, None], ['change', None],
+                  ['file', None], ['meta', {'path': 'h'}, None]]
+
+
+def check_handover(split, how):
+    """The writer is handed over after `split` calls: to a deep copy
+    (checkpointing), or to another stream by assigning the public `fp`
+    attribute. What is written afterwards goes to the writer's current
+    stream and nowhere else."""
+    import copy
+    from mc import spec
+    calls = HANDOVER_CALLS
+    full, _ = spec.serialize(calls, 'utf-8')
+    head, _ = spec.serialize(calls[:split], 'utf-8')
+    s1 = AppendOnlyStream()
+    w = DiffXWriter(s1, encoding='utf-8')
+    try:
+        for c in calls[:split]:
+            apply_call(w, c)
+        if how == 'deepcopy':
+            w2 = copy.deepcopy(w)
+            s2 = w2.fp
+            for c in calls[split:]:
+                apply_call(w2, c)
+            got_new = bytes(s2.buf)
+            want_new = full
+        else:
+            s2 = AppendOnlyStream()
+            w.fp = s2
+            for c in calls[split:]:
+                apply_call(w, c)
+            got_new = bytes(s2.buf)
+            want_new = full[len(head):]
+    except Exception as e:
+        return [('handover-raised:%s:%s:%s' % (how, type(e).__name__,
+                                               site_of(e)), repr(e))]
+    v = []
+    if bytes(s1.buf) != head:
+        v.append(('handover:%s:old-stream-changed' % how,
+                  'after %d calls the writer was handed over (%s); the '
+                  'first stream now holds %d bytes, expected %d'
+                  % (split, how, len(s1.buf), len(head))))
+    if got_new != want_new:
+        v.append(('handover:%s:new-stream-wrong' % how,
+                  'after %d calls (%s): the current stream holds %r..., '
+                  'expected %r...' % (split, how, got_new[-60:],
+                                      want_new[-60:])))
+    return v
+
+
 def plan(tier):
     units = []
     L = seq_len(tier)
@@ -306,6 +361,7 @@ def plan(tier):
         hs = sorted(g['seen'].values(), key=lambda h: (len(h), repr(h)))
         for h in hs:
             units.append(('hostile', root, [list(c) for c in h]))
+    units.append(('handover', 'utf-8'))
     nsh = len(scale_hostile_calls())
     for lo in range(0, nsh, 6):
         units.append(('scale-hostile', 'utf-8', lo, min(lo + 6, nsh)))
@@ -348,7 +404,28 @@ def OPT_UNITS(tier):
     return keep
 
 
+def run_handover_unit():
+    acc = Acc()
+    for how in ('deepcopy', 'assign-fp'):
+        for split in range(0, len(HANDOVER_CALLS) + 1):
+            viols = check_handover(split, how)
+            acc.evals += 1
+            acc.states += 1
+            acc.transitions += len(HANDOVER_CALLS)
+            acc.validated += 1
+            acc.nontrivial += 1
+            for key, msg in viols:
+                acc.violation(key, msg, {'kind': 'handover', 'split': split,
+                                         'how': how})
+            acc.outcome('ok' if not viols else 'violation')
+    acc.sample({'handover': 'deepcopy / fp assignment at every split of a '
+                            '%d-call history' % len(HANDOVER_CALLS)}, 1)
+    return acc
+
+
 def run_unit(unit, tier):
+    if unit[0] == 'handover':
+        return run_handover_unit()
     acc = Acc()
     g0 = module_globals_snapshot()
     if unit[0] in ('seq', 'seq-short'):
@@ -457,6 +534,9 @@ def _nontrivial(s):
 
 
 def replay(payload):
+    if payload.get('kind') == 'handover':
+        return [{'key': k, 'msg': m} for k, m in check_handover(
+            payload['split'], payload['how'])]
     k = payload.get('kind')
     if k == 'seq':
         seq = [(BASIC[i], None, None, None) for i in payload['seq']]
